@@ -1099,6 +1099,7 @@ stream_encoder_mt_init(lzma_next_coder *next, const lzma_allocator *allocator,
 		coder->threads_max = 0;
 		coder->threads_initialized = 0;
 		coder->thr = NULL;
+		coder->block_size = 0;
 	}
 
 	// Allocate the thread-specific base structures.
@@ -1109,7 +1110,13 @@ stream_encoder_mt_init(lzma_next_coder *next, const lzma_allocator *allocator,
 	// is the case when no Block was being filled and the output queue
 	// is empty. Otherwise some workers may not return to the stack of
 	// free threads after threads_stop(), so get rid of them.
-	if (coder->threads_max != options->threads || coder->thr != NULL
+	//
+	// The input buffers of the worker threads were allocated using
+	// the old block size, thus the threads cannot be reused either
+	// if the block size has changed.
+	if (coder->threads_max != options->threads
+			|| coder->block_size != block_size
+			|| coder->thr != NULL
 			|| !lzma_outq_is_empty(&coder->outq)) {
 		threads_end(coder, allocator);
 
